@@ -80,9 +80,13 @@ def has_moment(e):
 def cases(draw, tier):
     big = tier == 'thorough'
     nflags, ntr = 3, 2
+    decimal = draw(st.integers(0, 4)) == 0        # one-decimal dates: not representable, additions round
+    GR = st.integers(0, 60).map(lambda x: x / 10) if decimal else GRID
 
     def atom():
         k = draw(st.integers(0, 13))
+        if decimal and draw(st.booleans()):
+            k = draw(st.sampled_from([11, 11, 12]))        # mostly date conditions in the decimal mode
         if k < 4:
             return ['flag', draw(st.integers(0, nflags - 1))]
         if k < 6:
@@ -96,9 +100,9 @@ def cases(draw, tier):
         if k < 11:
             return ['done', 'hd'] if draw(st.booleans()) else ['not', ['done', 'hd']]
         if k < 12:
-            return [draw(st.sampled_from(['time_ge', 'time_lt'])), draw(GRID)]
+            return [draw(st.sampled_from(['time_ge', 'time_lt'])), draw(GR)]
         if k < 13:
-            return ['time_eq', draw(GRID)]
+            return ['time_eq', draw(GR)]
         return ['instant'] if draw(st.booleans()) else ['eternity']
 
     def expr(depth):
@@ -113,7 +117,7 @@ def cases(draw, tier):
     waiters = []
     for j in range(draw(st.integers(1, 4))):
         steps = []
-        off = draw(st.sampled_from([0, 0, 0.25, 0.5, 1, 1.5, 2, 3]))
+        off = draw(st.sampled_from([0, 0, 0.25, 0.5, 1, 1.5, 2, 3])) if not decimal else draw(st.integers(0, 30)) / 10
         if off:
             steps.append({'op': 'sleep', 'd': off})
         for _ in range(draw(st.integers(0, 2))):
@@ -141,7 +145,8 @@ def cases(draw, tier):
                     ctl.append({'op': 'decrease', 'r': 'R', 'amounts': {'a': draw(st.integers(0, 2))}})
                 ctl.append({'op': 'bools', 'exprs': exprs})
         return ctl
-    times = sorted(draw(st.lists(st.integers(0, 20).map(lambda x: x / 4), min_size=1, max_size=6 if big else 5, unique=True)))
+    times = sorted(draw(st.lists(st.integers(0, 20).map(lambda x: x / 4) if not decimal else st.integers(0, 50).map(lambda x: x / 10),
+                                 min_size=1, max_size=6 if big else 5, unique=True)))
     ctl = controller(times)
     # a second driver acting in the same time steps: a value may be reverted between the trigger and the
     # waiter's turn (the oracle needs no order assumption: the state is rebuilt from the log)
